@@ -551,15 +551,20 @@ func probeScenarios() []Scenario {
 			}
 			label = fmt.Sprintf("conc=%d stop=%v", wantC, wantStop)
 			var order []int
-			before := core.NumThreads()
-			spawned := 0
+			// the concurrency in force is measured by what it does: every item takes one second of
+			// virtual time, so max(1, c) of the three are in flight together — however the
+			// library chooses to provide its workers
+			var in, maxIn core.Cell[int]
 			b := buildBatch(seq, false).(*flyt.BatchNodeBuilder)
 			b = b.WithPrepFunc(func(context.Context, *flyt.SharedStore) ([]flyt.Result, error) {
 				return []flyt.Result{flyt.NewResult(0), flyt.NewResult(1), flyt.NewResult(2)}, nil
 			}).WithExecFunc(func(_ context.Context, it flyt.Result) (flyt.Result, error) {
-				if n := core.NumThreads() - before; n > spawned {
-					spawned = n
+				in.Set(in.Get() + 1)
+				if in.Get() > maxIn.Get() {
+					maxIn.Set(in.Get())
 				}
+				core.Sleep(time.Second)
+				in.Set(in.Get() - 1)
 				i := it.Value().(int)
 				order = append(order, i)
 				if i == 0 {
@@ -571,8 +576,8 @@ func probeScenarios() []Scenario {
 			if err != nil {
 				core.Problem("probe batch failed: %v", err)
 			}
-			if spawned != wantC {
-				core.Problem("batch spawned %d worker threads, configured concurrency %d (%s)", spawned, wantC, seqString(seq))
+			if want := max(1, wantC); maxIn.Get() != want {
+				core.Problem("at most %d item(s) were in flight together, configured concurrency %d (%s)", maxIn.Get(), wantC, seqString(seq))
 			}
 			if wantC == 0 {
 				if wantStop && len(order) != 1 {
@@ -603,13 +608,16 @@ func probeScenarios() []Scenario {
 			}
 			label = fmt.Sprintf("stop %v->%v conc %d->%d opts=%v", firstStop, !firstStop, c1, c2, useOpts)
 			var order []int
-			spawned, before := 0, 0
+			var in, maxIn core.Cell[int]
 			b = b.WithPrepFunc(func(context.Context, *flyt.SharedStore) ([]flyt.Result, error) {
 				return []flyt.Result{flyt.NewResult(0), flyt.NewResult(1), flyt.NewResult(2)}, nil
 			}).WithExecFunc(func(_ context.Context, it flyt.Result) (flyt.Result, error) {
-				if n := core.NumThreads() - before; n > spawned {
-					spawned = n
+				in.Set(in.Get() + 1)
+				if in.Get() > maxIn.Get() {
+					maxIn.Set(in.Get())
 				}
+				core.Sleep(time.Second)
+				in.Set(in.Get() - 1)
 				i := it.Value().(int)
 				order = append(order, i)
 				if i == 0 {
@@ -618,13 +626,14 @@ func probeScenarios() []Scenario {
 				return it, nil
 			})
 			runOnce := func(which string, wantStop bool, wantC int) {
-				order, spawned, before = nil, 0, core.NumThreads()
+				order = nil
+				maxIn.Set(0)
 				if _, err := flyt.Run(context.Background(), b, flyt.NewSharedStore()); err != nil {
 					core.Problem("%s failed: %v", which, err)
 				}
 				core.WaitQuiescent()
-				if spawned != wantC {
-					core.Problem("%s: batch spawned %d worker threads, configured concurrency %d (%s)", which, spawned, wantC, label)
+				if want := max(1, wantC); maxIn.Get() != want {
+					core.Problem("%s: at most %d item(s) were in flight together, configured concurrency %d (%s)", which, maxIn.Get(), wantC, label)
 				}
 				if wantC == 0 {
 					if wantStop && len(order) != 1 {
@@ -798,16 +807,29 @@ func probeScenarios() []Scenario {
 		body := func() {
 			sizes := []int{-3, -1, 0, 1, 2}
 			k := sizes[core.Choose(len(sizes))]
-			before := core.NumThreads()
 			p := flyt.NewWorkerPool(k)
-			got := core.NumThreads() - before
 			want := k
 			if want <= 0 {
 				want = 1
 			}
-			label = fmt.Sprintf("size=%d workers=%d", k, got)
-			if got != want || flyt.ZZPoolWorkers(p) != want {
-				core.Problem("NewWorkerPool(%d) started %d workers (field %d), want %d", k, got, flyt.ZZPoolWorkers(p), want)
+			// the number of workers is measured by what it allows: three one-second tasks, of
+			// which min(3, workers) run together
+			var in, maxIn core.Cell[int]
+			for i := 0; i < 3; i++ {
+				p.Submit(func() {
+					in.Set(in.Get() + 1)
+					if in.Get() > maxIn.Get() {
+						maxIn.Set(in.Get())
+					}
+					core.Sleep(time.Second)
+					in.Set(in.Get() - 1)
+				})
+			}
+			p.Wait()
+			got := maxIn.Get()
+			label = fmt.Sprintf("size=%d tasks in flight together=%d", k, got)
+			if got != min(3, want) {
+				core.Problem("NewWorkerPool(%d): %d of three one-second tasks ran together, want %d", k, got, min(3, want))
 			}
 			p.Close()
 		}
